@@ -9,7 +9,7 @@ use pv::{ensure, fail};
 use serde::{Deserialize, Serialize};
 use wide::{f32x4, f32x8, f64x2, f64x4};
 
-include!("c17_tables.rs");
+include!("../../tables/c17_tables.rs");
 
 const VNAMES: [&str; 4] = ["f32x4", "f32x8", "f64x2", "f64x4"];
 fn vn(v: u8) -> usize {
